@@ -110,7 +110,10 @@ fn main() {
             });
             dispatch_engine!(rf.engine.as_str(), do_replay, &rf, &path)
         }
-        "twin-child" => engines::twin::child_main(args.get(2).map(|s| s.as_str()).unwrap_or("")),
+        "twin-child" => {
+            let arr = args.get(2).cloned().unwrap_or_default();
+            std::thread::spawn(move || engines::twin::child_main(&arr)).join().unwrap_or(2)
+        }
         "determinism" => {
             let property = arg_value(&args, "--property").unwrap_or_else(|| usage());
             let n = arg_value(&args, "--n").and_then(|s| s.parse().ok()).unwrap_or(2000);
